@@ -12,7 +12,14 @@ SPEC = {
             "E in {std::exception, logic_error, invalid_argument, out_of_range, runtime_error, range_error, bad_alloc, "
             "expectation_failed, JSON::parse_error, user type deriving from runtime_error} x fn in {returns, throws each of "
             "the ten, throws int, throws a non-std::exception class} = 130 cells x three call flavours; every cell repeated "
-            "(60x quick, 1000x thorough). distinct_nontrivial = distinct (relation, operand type, order shape, expected "
+            "(60x quick, 1000x thorough). Operand-shape cells: each relation macro x {first, second} operand written as an "
+            "unparenthesised expression of 22 shapes (ternary with constant/variable arms, |, &, ^, &&, ||, ==, !=, <, >=, <<, "
+            "+, -, *, %, unary -, !, ~, cast, call) over 18 variable assignments x 6 values of the other operand, truth from "
+            "the explicitly parenthesised value. Call contexts: every cell of every part rotates through direct / inside a "
+            "catch handler of an unrelated exception / destructor on normal scope exit / destructor during stack unwinding "
+            "of an unrelated exception (failure caught inside the destructor) / second thread started from an unwinding "
+            "destructor; verdict, file, line, message, what() must equal the direct context's. errno is poisoned before "
+            "every call. distinct_nontrivial = distinct (relation, operand type, order shape, expected "
             "outcome) and (E, behaviour of fn, expected outcome) cells observed.",
     "level_text": "The input space of the statement is finite once the operand sets and the exception hierarchy are fixed, and "
                   "it is enumerated completely: every relation x operand-pair cell and all 130 expect_raises cells are "
@@ -20,12 +27,16 @@ SPEC = {
                   "exception hierarchies outside the listed ones (e.g. virtual/multiple inheritance, exceptions thrown from "
                   "destructors) are not explored.",
     "stages": [
+        # The -Wno-* flags silence, for this TU only, the diagnostics that unparenthesised operand shapes can trigger when a
+        # header forgets to parenthesise a macro parameter: the broken header must compile to a wrong verdict, not to a
+        # build failure (= inconclusive).
         # -O0 for the harness translation unit only (the library stays -O1): the ~1500 macro call sites x ASan/UBSan
         # instrumentation take 23 CPU-s to compile at -O1 and 7 s at -O0; run time is irrelevant here.
-        {"name": "c19", "variant": "asan", "shards": (16, 16), "timeout": (600, 3600), "extra_cxx": ["-O0"]},
+        {"name": "c19", "variant": "asan", "shards": (16, 16), "timeout": (600, 3600), "extra_cxx": ["-O0", "-Wno-parentheses", "-Wno-int-in-bool-context", "-Wno-bool-compare", "-Wno-bool-operation",
+                       "-Wno-unused-value"]},
     ],
     "min_evaluations": 50000,
-    "min_classes": {"quick": 250, "thorough": 250},
+    "min_classes": {"quick": 380, "thorough": 380},
     "required_classes": [
         "rel:eq:int:*", "rel:ge:int:equal:holds", "rel:ge:int:less:fails", "rel:gt:int:equal:fails", "rel:le:double:unordered:fails",
         "rel:ne:double:unordered:holds", "rel:lt:string:less:holds", "rel:eq:string:equal:holds", "rel:le:uint64:greater:fails",
@@ -35,6 +46,16 @@ SPEC = {
         "raises:runtime_error:throws-user_runtime_error:must-pass", "raises:exception:throws-bad_alloc:must-pass",
         "raises:logic_error:throws-expectation_failed:must-pass", "raises:runtime_error:throws-expectation_failed:must-fail",
         "raises:JSON.parse_error:throws-runtime_error:must-fail", "raises:user_runtime_error:throws-user_runtime_error:must-pass",
+        "shape:ternary_const_arms:second:fails", "shape:ternary_var_arms:second:fails", "shape:ternary_var_arms:second:holds",
+        "shape:ternary_var_arms:first:fails", "shape:bit_or:second:fails", "shape:bit_and:second:holds", "shape:bit_xor:second:fails",
+        "shape:logical_and:second:holds", "shape:logical_and:second:fails", "shape:logical_or:second:fails", "shape:equality:second:fails",
+        "shape:relational_lt:second:fails", "shape:additive:second:fails", "shape:unary_minus:first:fails", "shape:call:second:holds",
+        "shape-rel:eq:second", "shape-rel:lt:second", "shape-rel:ge:first",
+        "ctx:direct:relation:fails", "ctx:catch-handler:relation:fails", "ctx:dtor-normal-exit:relation:fails",
+        "ctx:dtor-unwinding:relation:fails", "ctx:dtor-unwinding:relation:holds", "ctx:thread-during-unwinding:relation:fails",
+        "ctx:direct:expect_raises:must-fail", "ctx:catch-handler:expect_raises:must-fail", "ctx:dtor-normal-exit:expect_raises:must-fail",
+        "ctx:dtor-unwinding:expect_raises:must-fail", "ctx:dtor-unwinding:expect_raises:must-pass",
+        "ctx:thread-during-unwinding:expect_raises:must-fail",
     ],
     "exhaustive": {"quick": True, "thorough": True},
     "exhaustive_note": "all relation x operand-pair cells of the stated boundary sets and all 130 (E, behaviour) cells of the "
